@@ -708,7 +708,12 @@ func leaseRandom(r *rng) leaseScn {
 		var act string
 		switch c := r.intn(20); {
 		case c < 9:
-			act = fmt.Sprintf("g%d:%d", i, uint32(r.intn(int(maxc)+5)))
+			gv := uint32(r.intn(int(maxc) + 5))
+			if r.chance(1, 12) {
+				// "give me everything": a request at the top of the uint32 range
+				gv = 4294967295 - uint32(r.intn(int(feff)))
+			}
+			act = fmt.Sprintf("g%d:%d", i, gv)
 		case c < 11:
 			act = fmt.Sprintf("g%d:0", i)
 		case c < 12 && s.gen == 2:
